@@ -8,7 +8,8 @@
 (b) Bounded retention: weak references to every per-request object the harness creates
     (environ - a dict subclass -, input stream, handler-created marker objects, returned
     generators); after N requests and gc.collect() the number still alive must be a small
-    constant and must not grow between N and 10N.  tracemalloc growth per request is reported.
+    constant and must not grow between N and 10N; and the memory still allocated (tracemalloc) after N and
+    10N requests with all-distinct markers must not grow by more than 64 bytes per additional request.
 """
 import gc
 import weakref
@@ -21,7 +22,7 @@ RULE = ('request kinds {success with cookie+header+status, plain success, raised
         'marker variants each; histories = all ordered pairs (quick) or triples (thorough) of kind-variants plus random histories of length 20-60; '
         'retention runs of N and 10N requests per kind mix. Non-trivial = the history has an earlier request of a different kind or variant; '
         'distinct = distinct history.')
-REQUIRED = ['baselines', 'history_requests_compared', 'ordered_pairs_covered', 'retention_runs', 'weakrefs_tracked', 'kinds_in_histories',
+REQUIRED = ['growth_runs', 'baselines', 'history_requests_compared', 'ordered_pairs_covered', 'retention_runs', 'weakrefs_tracked', 'kinds_in_histories',
             'error_after_success', 'success_after_error', 'undecodable_path_after_cookie', 'shared_error_instances_raised']
 EXHAUSTIVE = {'quick': True, 'thorough': True, 'quick_note': 'all ordered pairs of the kind-variants', 'thorough_note': 'all ordered triples of the kind-variants'}
 ASSUMPTIONS = ['the Date header (none is emitted by the framework) and object addresses are not part of a response',
@@ -325,12 +326,46 @@ def retention_unit(ctx, unit):
                         'tracemalloc_bytes_per_request': {str(k): round(v, 1) for k, v in growth.items()}})
 
 
+def growth_unit(ctx, unit):
+    """tracemalloc monitor: memory still allocated after N and after 10N requests with all-distinct markers
+    (distinct paths, queries, hosts, cookies).  The marginal growth per request must stay below a small constant:
+    a retained page, environ or header set is hundreds of bytes.  Measured on the unchanged tree: <= 3 bytes."""
+    K = kinds()
+    N = unit['n']
+    for kind in K:
+        g = {}
+        for n in (N, N * 10):
+            app = build_app()
+            for i in range(20):
+                call_app(app, environ_for(K, kind, 'w%d' % i))
+            gc.collect()
+            tracemalloc.start(3)
+            s0 = tracemalloc.take_snapshot()
+            for i in range(n):
+                r = call_app(app, environ_for(K, kind, 'u%06d' % i))
+                del r
+            gc.collect()
+            s1 = tracemalloc.take_snapshot()
+            tracemalloc.stop()
+            g[n] = sum(st.size_diff for st in s1.compare_to(s0, 'filename'))
+            del app
+        marginal = (g[N * 10] - g[N]) / (9 * N)
+        ctx.count('growth_runs')
+        ctx.case(('growth', kind, N), nontrivial=True)
+        ctx.note_max('max_marginal_bytes_per_request_x10', int(10 * marginal))
+        if marginal > 64:
+            ctx.violation('memory-retained-per-request-grows-with-N', f'{kind}: {g[N]} bytes still allocated after {N} distinct requests, {g[N * 10]} after {N * 10}: '
+                          f'{marginal:.0f} bytes per additional request', {'unit': {'kind': 'growth1', 'n': N}})
+        if len(ctx.samples) < 6:
+            ctx.sample({'kind': kind, 'bytes_still_allocated': {str(k): v for k, v in g.items()}, 'marginal_bytes_per_request': round(marginal, 1)})
+
+
 def plan(tier, seed):
     if tier == 'quick':
         return ([{'kind': 'histories', 'depth': 2, 'shard': i, 'shards': 4} for i in range(4)] + [{'kind': 'random', 'n': 60}]
-                + [{'kind': 'retention', 'n': 60}])
+                + [{'kind': 'retention', 'n': 60}, {'kind': 'growth', 'n': 100}])
     return ([{'kind': 'histories', 'depth': 3, 'shard': i, 'shards': 17} for i in range(17)] + [{'kind': 'histories', 'depth': 2, 'shard': 0, 'shards': 1}]
-            + [{'kind': 'random', 'n': 400, 'sub': i} for i in range(8)] + [{'kind': 'retention', 'n': 300}])
+            + [{'kind': 'random', 'n': 400, 'sub': i} for i in range(8)] + [{'kind': 'retention', 'n': 300}, {'kind': 'growth', 'n': 400}])
 
 
 def run_unit(ctx, unit):
@@ -341,6 +376,8 @@ def run_unit(ctx, unit):
         random_unit(ctx, unit)
     elif k == 'retention':
         retention_unit(ctx, unit)
+    elif k in ('growth', 'growth1'):
+        growth_unit(ctx, unit)
     elif k == 'hist':
         K = kinds()
         base = baselines(ctx, K)
